@@ -765,6 +765,9 @@ func c05ErrorsChecked(c *Ctx, m *Module, fns []*ssa.Function) {
 			dropped++
 			cn := calleeName(cs.Common())
 			reason, tabled := c05IgnoreTable[fname(f)+"|"+cn]
+			if !tabled {
+				reason, tabled = c05IgnoreTable[fnameTop(f)+"|"+cn]
+			}
 			r.Check("C05.errors-checked", fname(f)+"/error of "+cn+" dropped", m.Pos(cs.Pos()), tabled && reason != "",
 				"an error reported by this call is discarded; on a host-facing path that is allowed only for the tabled best-effort operations: "+reason)
 		}
